@@ -608,6 +608,221 @@ def rule_xerial_progress(ctx):
        f"snappy_decode: {why}: a hostile block length <= 0 (e.g. -4) puts the cursor back where it was and the scan never ends")
 
 
+def rule_invariant_survives_rebind(ctx, px, summaries, seeds):
+    R = "ctor-invariant"
+    # the constructors' size invariant is a fact about the buffer THEY bound.  Both compiled readers re-bind self._buffer to the
+    # decompressed payload on first iteration; a payload can be any size (0 bytes), so a method whose reads are justified by the invariant
+    # must not run on the re-bound buffer: it refuses (the v2 reader's own idiom: `assert self._decompressed == 0`) before its first read.
+    from ..cfg import CFG
+    from ..rulekit import must_facts
+    n_reb = 0
+    for cls, mod in (("DefaultRecordBatch", DEF), ("LegacyRecordBatch", LEG)):
+        rebinders = []
+        for q, fi in px.funcs.items():
+            if not q.startswith(f"{mod}.{cls}.") or fi.name in ("__init__", "new", "__cinit__"):
+                continue
+            for x in ast.walk(fi.node):
+                if isinstance(x, ast.Call) and call_attr(x) == "PyObject_GetBuffer" or (isinstance(x, ast.Call) and isinstance(x.func, ast.Name) and x.func.id == "PyObject_GetBuffer"):
+                    if len(x.args) >= 2 and unparse(x.args[1]) == "__addr__(self._buffer)":
+                        rebinders.append(fi)
+        n_reb += len(rebinders)
+        if not rebinders:
+            continue
+        for q in [q for q in DECODERS if q.startswith(f"{mod}.{cls}.") and (q.endswith("validate_crc") or q.endswith("_maybe_uncompress"))]:
+            fi = px.fn(q)
+            if fi in rebinders:
+                # the rebinder itself: its seed-justified reads precede the rebinding and it runs once (flag tested on entry)
+                c = CFG(fi.node, fi.qualname)
+                reb = [n for n in c.nodes if n.kind == "call" and unparse(n.ast.func).endswith("PyObject_GetBuffer")]
+                fl = [n for n in c.nodes if n.kind == "test" and "self._decompressed" in unparse(n.ast)]
+                ok = bool(reb) and bool(fl) and all(c.dominates(fl[0], r) for r in reb)
+                ob(ctx, R, fi, fi.node.lineno, "rebinds-once", ok, f"{fi.name} re-binds the buffer without first testing that it has not been re-bound already")
+                continue
+            _f, fb = _analyse(ctx, px, q, summaries, entry_facts=seeds.get(cls, []))
+            c = fb.cfg
+            facts = must_facts(c)
+            for r in fb.reads():
+                f_ = facts.get(r.node) or frozenset()
+                ok = any(a[0] == "self._decompressed" and ((a[1] == "==" and a[2] in ("0", "False")) or a[1] == "falsy") for a in f_) or \
+                     any(a[2] == "self._decompressed" and a[1] == "==" and a[0] in ("0", "False") for a in f_)
+                ob(ctx, R, fi, r.lineno, f"not-after-rebind:{r.what.split(chr(40))[0]}", ok,
+                   f"`{r.what[:80]}` relies on the constructor's minimum-size invariant, but {rebinders[0].name} re-binds self._buffer to the decompressed payload "
+                   f"(any size, even empty) and {fi.name} does not refuse to run after that (`assert self._decompressed == 0`): out-of-bounds read, interpreter crash")
+    ctx.anchor(n_reb >= 2, f"functions re-binding the input buffer ({n_reb})")
+
+
+def rule_index_nonneg(ctx, px, summaries, seeds):
+    R = "index-nonneg"
+    ctx.rep.rule(R, "every raw read of the input buffer uses an index proven >= 0 (the coverage rule bounds indices from above only): cursors "
+                    "start at a non-negative constant, at a cursor field, or at the caller's cursor, and move by amounts with a proven non-negative "
+                    "lower bound; a cursor that is moved BACK (`pos -= e`) is accepted only as the exact rewind of the last step of a loop that "
+                    "provably ran at least once")
+    total = 0
+    for q in DECODERS:
+        kw = {}
+        cls = q.rsplit(".", 2)[-2]
+        if q.endswith("decode_varint64"):
+            kw = {"len_texts": ("buf_len",), "cursors": ("pos",)}
+        elif q.endswith("_maybe_uncompress") or q.endswith("validate_crc"):
+            kw = {"entry_facts": seeds.get(cls, [])}
+        fi, fb = _analyse(ctx, px, q, summaries, **kw)
+        params = set(fi.params())
+        # positions held by parameters, by the cursor field and by the caller's cursor are validated (callers / the ctor-invariant rule:
+        # every store to self._pos is a proven position): they enter with lower bound 0; everything else needs a derived bound
+        from ..bounds import State
+        st0 = State()
+        for cur_, const_, syms_ in kw.get("entry_facts", []):
+            st0.add_cov(cur_, const_, syms_)
+        for k in list(params) + ["self._pos"] + [f"{p_}[0]" for p_ in params]:
+            st0.lb[k] = 0
+        fb._solve_from(st0)
+        for r in fb.reads():
+            st = fb.IN.get(r.node)
+            if st is None:
+                continue    # unreachable
+            total += 1
+            fb._cur = st
+            idx = fb._lin(r.index, r.node)
+            ok, why = False, f"index `{unparse(r.index)[:40]}` is not linear"
+            if idx is not None:
+                lb = dict(st.lb)
+                lo = fb._lower_with(idx, lb)
+                ok = lo is not None and lo >= 0
+                why = f"no lower bound is known for index `{unparse(r.index)[:40]}`" if lo is None else f"index `{unparse(r.index)[:40]}` can be as low as {lo}"
+                if not ok:
+                    ok, why2 = _rewind_ok(fb, r, idx)
+                    why = why + "; " + why2
+            ob(ctx, R, fi, r.lineno, f"{r.kind}:{r.what.split(chr(40))[0]}:{unparse(r.index)[:30]}", ok, f"`{r.what[:70]}`: {why}")
+    ctx.anchor(total >= 40, f"raw read sites examined for a lower bound: {total}")
+
+
+def _rewind_ok(fb, r, idx):
+    """The index is a cursor whose last move was `cur -= E` directly after a while-loop whose every iteration ends with `cur += E`, the
+    loop provably runs at least once (cursor 0 on entry, `while cur < LEN`, LEN >= 1 established) and the cursor is >= 0 inside it."""
+    c = fb.cfg
+    curs = [k for k, v in idx.terms.items() if v == 1 and k.isidentifier()]
+    if len(curs) != 1 or idx.const < 0 or any(v < 0 for v in idx.terms.values()):
+        return False, "not a plain cursor"
+    cur = curs[0]
+    stores = [n for n in c.nodes if n.kind == "store" and isinstance(n.ast, ast.Name) and n.ast.id == cur]
+    back = [n for n in stores if isinstance(n.stmt, ast.AugAssign) and isinstance(n.stmt.op, ast.Sub)]
+    if len(back) != 1 or not c.dominates(back[0], r.node) or any(c.path_exists(back[0], s_, exc=False) for s_ in stores if s_ is not back[0]):
+        return False, "no single rewind dominating the read"
+    e_txt = unparse(strip_casts(back[0].stmt.value))
+    loops = [h for h in c.nodes if h.kind == "loop" and isinstance(h.ast, ast.While) and c.dominates(h, back[0]) and not any(a is h.ast for a, _r in back[0].within)]
+    if len(loops) != 1:
+        return False, "the rewind does not follow a while-loop"
+    h = loops[0]
+    body_stores = [n for n in stores if any(a is h.ast for a, _r in n.within)]
+    if not body_stores or not all(isinstance(n.stmt, ast.AugAssign) and isinstance(n.stmt.op, ast.Add) for n in body_stores):
+        return False, "the loop moves the cursor by something other than `+=`"
+    last = [n for n in body_stores if not any(c.path_exists(n, m, exc=False, avoid={h}) for m in body_stores if m is not n)]
+    if len(last) != 1 or unparse(strip_casts(last[0].stmt.value)) != e_txt or len(body_stores) != 1:
+        return False, f"the loop's last step is not `{cur} += {e_txt}`"
+    # variables of E are not re-bound between the step and the rewind
+    names = {x.id for x in ast.walk(back[0].stmt.value) if isinstance(x, ast.Name)}
+    for n in c.nodes:
+        if n.kind == "store" and isinstance(n.ast, ast.Name) and n.ast.id in names and c.path_exists(last[0], n, exc=False, avoid={h}) and c.path_exists(n, back[0], exc=False):
+            return False, f"`{n.ast.id}` is re-bound between the last step and the rewind"
+    # cursor >= 0 at the step
+    st_in = fb.IN.get(last[0])
+    if st_in is None or st_in.lb.get(cur) is None or st_in.lb[cur] < 0:
+        return False, "the cursor has no non-negative lower bound inside the loop"
+    # at least one iteration: on entry cursor == 0, the test is cur < LEN, and LEN >= 1 is established
+    pre = [p for p, l in h.pred if l != "back"] if hasattr(h, "pred") else []
+    test = strip_casts(h.ast.test)
+    fb._cur = fb.IN.get(h)
+    if not (isinstance(test, ast.Compare) and len(test.ops) == 1 and isinstance(test.ops[0], ast.Lt) and unparse(test.left) == cur):
+        return False, "the loop test is not `cursor < length`"
+    rhs = fb._lin(test.comparators[0], h)
+    if rhs is None or set(rhs.terms) != {"LEN"} or rhs.const != 0:
+        return False, "the loop test is not `cursor < length`"
+    ok_entry = False
+    for p, l in h.pred:
+        if l == "back":
+            continue
+        stp = fb._transfer(p, l, fb.IN[p]) if fb.IN.get(p) is not None else None
+        if stp is None:
+            continue
+        k = max([c_ for c_, y in stp.cov.get("0", set()) if not y], default=0)
+        ok_entry = stp.eq.get(cur) == 0 and k >= 1
+        if not ok_entry:
+            break
+    if not ok_entry:
+        return False, ("the loop is not shown to run at least once (needs the cursor to be 0 and a minimum buffer length established before the loop): with an "
+                       "empty buffer the rewind moves the cursor to a negative index and the read lies BEFORE the buffer")
+    return True, ""
+
+
+def rule_error_sentinel(ctx, px):
+    R = "error-sentinel"
+    ctx.rep.rule(R, "a `cdef T f(...) except V` function (no `?`) tells every caller that the return value V MEANS an exception is pending; if such a "
+                    "function can return V as an ordinary value the caller takes the error exit with no exception set -- `SystemError: error return "
+                    "without exception set`, or, inside a generator (`__iter__` of the legacy batch), a silent end of iteration that drops the batch's "
+                    "records.  So no return of such a function may carry a value read from the input buffer (hton.unpack_*, buf[i], a varint "
+                    "out-parameter) unless a dominating test excludes V, and constant returns differ from V; functions whose result is input-derived "
+                    "must be declared `except? V`")
+    from ..cfg import CFG
+    from ..rulekit import must_facts
+    n = 0
+    for q, fi in sorted(px.funcs.items()):
+        if fi.kind != "cdef" or fi.exc_value is None or fi.exc_check:
+            continue
+        n += 1
+        ctx.rep.functions.add(q)
+        tainted = set()
+        changed = True
+
+        def is_src(e):
+            for x in ast.walk(e):
+                if isinstance(x, ast.Call) and isinstance(x.func, ast.Attribute) and x.func.attr.startswith("unpack_"):
+                    return True
+                if isinstance(x, ast.Subscript) and isinstance(x.value, ast.Name) and fi.ctypes.get(x.value.id, "").endswith("*") and isinstance(x.ctx, ast.Load) \
+                        and not (isinstance(getattr(x, "_parent", None), ast.Call) and unparse(x._parent.func) == "__addr__"):
+                    return True
+                if isinstance(x, ast.Name) and x.id in tainted:
+                    return True
+            return False
+        while changed:
+            changed = False
+            for st in ast.walk(fi.node):
+                if isinstance(st, (ast.Assign, ast.AugAssign)) and st.value is not None and is_src(st.value):
+                    for t in (st.targets if isinstance(st, ast.Assign) else [st.target]):
+                        for x in ast.walk(t):
+                            if isinstance(x, ast.Name) and x.id not in tainted:
+                                tainted.add(x.id)
+                                changed = True
+                # out-parameters of the varint decoder: decode_varint64(buf, len, &pos, &value)
+                if isinstance(st, ast.Call) and call_attr(st) in ("decode_varint64", "decode_varint"):
+                    for a in st.args[3:]:
+                        if isinstance(a, ast.Call) and unparse(a.func) == "__addr__" and isinstance(a.args[0], ast.Name) and a.args[0].id not in tainted:
+                            tainted.add(a.args[0].id)
+                            changed = True
+        c = None
+        for r in [x for x in ast.walk(fi.node) if isinstance(x, ast.Return) and x.value is not None]:
+            v = strip_casts(r.value)
+            txt = unparse(v)
+            try:
+                cv = int(txt)
+            except ValueError:
+                cv = None
+            if cv is not None:
+                ob(ctx, R, fi, r.lineno, f"return:{txt}", str(cv) != str(fi.exc_value), f"`return {txt}` of a function declared `except {fi.exc_value}` is taken for an error by every caller")
+                continue
+            if not is_src(v):
+                ob(ctx, R, fi, r.lineno, f"return:{txt[:40]}", True)
+                continue
+            if c is None:
+                c = CFG(fi.node, fi.qualname)
+            rn = [x for x in c.nodes if x.kind == "return" and x.ast is r]
+            facts = (must_facts(c)[rn[0]] or frozenset()) if rn else frozenset()
+            excluded = isinstance(v, ast.Name) and any(a[0] == v.id and ((a[1] in (">=", ">") and a[2] in ("0",)) or (a[1] == "!=" and a[2] == str(fi.exc_value))) for a in facts)
+            ob(ctx, R, fi, r.lineno, f"return:{txt[:40]}", excluded,
+               f"`return {txt[:60]}` hands an input-derived value back from a function declared `except {fi.exc_value}` (not `except? {fi.exc_value}`): when the "
+               f"input makes it {fi.exc_value} the caller takes the error exit with no exception set (silent end of iteration / SystemError)")
+    ctx.anchor(n >= 12, f"cdef functions with an unchecked error sentinel ({n})")
+
+
 def run(ctx):
     rep = ctx.rep
     rep.explanation = ("C10: check-before-use analysis of every raw-pointer read in the compiled decoders (Cython parse tree lowered to a CFG; "
@@ -619,6 +834,8 @@ def run(ctx):
     summaries = rule_check_bounds_def(ctx, px)
     seeds = rule_invariants(ctx, px, summaries)
     rule_read_covered(ctx, px, summaries, seeds)
+    rule_invariant_survives_rebind(ctx, px, summaries, seeds)
+    rule_index_nonneg(ctx, px, summaries, seeds)
     rule_decode_varint_cython(ctx, px)
     rule_progress(ctx, px, summaries)
     rule_xerial_progress(ctx)
@@ -626,8 +843,8 @@ def run(ctx):
     rule_crc(ctx, px)
     rule_clean_errors(ctx)
     rule_buffer_lifetime(ctx, px)
+    rule_error_sentinel(ctx, px)
     rep.nd("behaviour inside zlib / snappy / lz4 / zstd and CPython's allocator")
-    rep.nd("validate_crc is assumed to run on the original buffer (before iteration), as documented; the legacy class does not assert it")
     rep.nd("value-level agreement of the two implementations on hostile input")
     rep.assumptions = ["Cython's parser represents the .pyx sources faithfully (DEF constants folded by the parser)",
                        "Py_ssize_t arithmetic on validated (in-range) values does not overflow; only sums with an unvalidated size are flagged",
